@@ -9,6 +9,7 @@ import (
 	"fmt"
 	"os"
 	"reflect"
+	"sort"
 	"strings"
 
 	"ariga.io/atlas/sql/mysql"
@@ -42,7 +43,9 @@ func dialects() []struct {
 		return func() *schema.ColumnType { return &schema.ColumnType{Type: &schema.IntegerType{T: t}, Raw: t} }
 	}
 	st := func(t string, size int, raw string) func() *schema.ColumnType {
-		return func() *schema.ColumnType { return &schema.ColumnType{Type: &schema.StringType{T: t, Size: size}, Raw: raw} }
+		return func() *schema.ColumnType {
+			return &schema.ColumnType{Type: &schema.StringType{T: t, Size: size}, Raw: raw}
+		}
 	}
 	return []struct {
 		d      *absmodel.Dialect
@@ -96,6 +99,83 @@ func typeCatalogue(d string) []namedType {
 	return out
 }
 
+type attrCase struct {
+	label    string
+	from, to *schema.Schema
+	want     []string
+}
+
+// attrCases: (1) defaults: every ordered pair of a catalogue of default spellings per column kind, each spelling tagged with the class of
+// the value it denotes; (2) MySQL: charset / collation of string-like columns (varchar, text, enum, set).
+func attrCases(d *absmodel.Dialect) []attrCase {
+	one := func(ct *schema.ColumnType, dflt schema.Expr, attrs ...schema.Attr) *schema.Schema {
+		s := schema.New(d.Schema)
+		t := schema.NewTable("t1").SetSchema(s)
+		id := &schema.Column{Name: "id", Type: d.T1()}
+		ct.Null = true
+		b := &schema.Column{Name: "b", Type: ct, Default: dflt, Attrs: attrs}
+		t.AddColumns(id, b)
+		t.SetPrimaryKey(schema.NewPrimaryKey(id))
+		s.AddTables(t)
+		return s
+	}
+	type dv struct{ text, class string }
+	text := []dv{{"'1.10'", "a"}, {"'1.1'", "b"}, {"'007'", "c"}, {"'7'", "d"}, {"'x'", "e"}, {"''", "f"}, {"'1e3'", "g"}, {"'1000'", "h"}, {"'true'", "i"}, {"'TRUE'", "j"}}
+	ints := []dv{{"1", "a"}, {"2", "b"}, {"0", "c"}, {"-1", "d"}, {"10", "e"}}
+	if d.Name == "sqlite" {
+		// the engine keeps the text of the default: other spellings of one
+		ints = append(ints, dv{"1.0", "a"}, dv{"+1", "a"}, dv{"1e0", "a"}, dv{"2.0", "b"})
+	}
+	var out []attrCase
+	for _, kind := range []string{"text", "int"} {
+		vals, mk := text, d.T2
+		if kind == "int" {
+			vals, mk = ints, d.T1
+		}
+		for _, x := range vals {
+			for _, y := range vals {
+				want := []string{}
+				if x.class != y.class {
+					want = []string{"ModifyTable t1 ModifyColumn b default"}
+				}
+				out = append(out, attrCase{"default " + kind + ": " + x.text + " -> " + y.text, one(mk(), &schema.Literal{V: x.text}), one(mk(), &schema.Literal{V: y.text}), want})
+			}
+		}
+	}
+	if d.Name == "mysql" {
+		types := []string{"varchar(10)", "text", "enum('a','b')", "set('a','b')", "char(3)"}
+		type cc struct{ cs, co string }
+		sets := []cc{{"utf8mb4", "utf8mb4_0900_ai_ci"}, {"utf8mb4", "utf8mb4_bin"}, {"latin1", "latin1_swedish_ci"}, {"latin1", "latin1_bin"}}
+		for _, raw := range types {
+			mk := func() *schema.ColumnType {
+				t, err := mysql.ParseType(raw)
+				if err != nil {
+					panic(err)
+				}
+				return &schema.ColumnType{Type: t, Raw: raw}
+			}
+			for _, x := range sets {
+				for _, y := range sets {
+					var fl []string
+					if x.cs != y.cs {
+						fl = append(fl, "charset")
+					}
+					if x.co != y.co {
+						fl = append(fl, "collate")
+					}
+					want := []string{}
+					if len(fl) > 0 {
+						want = []string{"ModifyTable t1 ModifyColumn b " + strings.Join(fl, ",")}
+					}
+					out = append(out, attrCase{"mysql " + raw + ": " + x.cs + "/" + x.co + " -> " + y.cs + "/" + y.co,
+						one(mk(), nil, &schema.Charset{V: x.cs}, &schema.Collation{V: x.co}), one(mk(), nil, &schema.Charset{V: y.cs}, &schema.Collation{V: y.co}), want})
+				}
+			}
+		}
+	}
+	return out
+}
+
 // skipKinds maps the model's change kinds to the policy's change types: exactly the kinds the CLI's diff.skip block can disable
 // (cmdapi.SkipChanges) that the model produces; primary-key and check changes are not skippable by policy.
 var skipKinds = map[string]schema.Change{
@@ -134,7 +214,121 @@ func isTypeChangeOnly(p pair) bool {
 	return p.From[p.Diff[0].T].Cols[c.N].Type == "T1" && p.To[p.Diff[0].T].Cols[c.N].Type == "T2"
 }
 
+// ---- foreign-key pairs of FkDiff.tla ---------------------------------------------------------------------
+
+type fkRec struct {
+	Cols     []string `json:"cols"`
+	RefCols  []string `json:"refcols"`
+	RefTable string   `json:"reftable"`
+	OnUpd    string   `json:"onupd"`
+	OnDel    string   `json:"ondel"`
+}
+
+type fkPair struct {
+	From  fkRec    `json:"from"`
+	To    fkRec    `json:"to"`
+	Flags []string `json:"flags"`
+}
+
+func fkSchema(d *absmodel.Dialect, f fkRec) *schema.Schema {
+	s := schema.New(d.Schema)
+	parents := map[string]*schema.Table{}
+	for _, pn := range []string{"p", "q"} {
+		p := schema.NewTable(pn).SetSchema(s)
+		x, y := &schema.Column{Name: "x", Type: d.T1()}, &schema.Column{Name: "y", Type: d.T1()}
+		p.AddColumns(x, y)
+		p.SetPrimaryKey(schema.NewPrimaryKey(x, y))
+		p.AddIndexes(schema.NewUniqueIndex(pn+"_yx").AddColumns(y, x), schema.NewUniqueIndex(pn+"_x").AddColumns(x), schema.NewUniqueIndex(pn+"_y").AddColumns(y))
+		parents[pn] = p
+		s.AddTables(p)
+	}
+	c := schema.NewTable("c").SetSchema(s)
+	id := &schema.Column{Name: "id", Type: d.T1()}
+	a, b := &schema.Column{Name: "a", Type: d.T1()}, &schema.Column{Name: "b", Type: d.T1()}
+	a.Type.Null, b.Type.Null = true, true
+	c.AddColumns(id, a, b)
+	c.SetPrimaryKey(schema.NewPrimaryKey(id))
+	fk := schema.NewForeignKey("f1").SetTable(c).SetRefTable(parents[f.RefTable])
+	for _, n := range f.Cols {
+		col, _ := c.Column(n)
+		fk.AddColumns(col)
+	}
+	for _, n := range f.RefCols {
+		col, _ := parents[f.RefTable].Column(n)
+		fk.AddRefColumns(col)
+	}
+	fk.SetOnUpdate(schema.ReferenceOption(f.OnUpd)).SetOnDelete(schema.ReferenceOption(f.OnDel))
+	c.AddForeignKeys(fk)
+	s.AddTables(c)
+	return s
+}
+
+func fkMode(path string) {
+	f, err := os.Open(path)
+	if err != nil {
+		panic(err)
+	}
+	sc := bufio.NewScanner(f)
+	sc.Buffer(make([]byte, 1<<20), 1<<26)
+	type mm struct {
+		Dialect string   `json:"dialect"`
+		Pair    fkPair   `json:"pair"`
+		Want    []string `json:"want"`
+		Got     []string `json:"got"`
+		Err     string   `json:"err,omitempty"`
+	}
+	mism := []mm{}
+	n, diffs := 0, 0
+	ds := dialects()
+	for sc.Scan() {
+		var p fkPair
+		if err := json.Unmarshal(sc.Bytes(), &p); err != nil {
+			panic(err)
+		}
+		n++
+		for _, d := range ds {
+			want := []string{}
+			if len(p.Flags) > 0 {
+				fl := append([]string{}, p.Flags...)
+				sort.Strings(fl)
+				want = []string{"ModifyTable c ModifyFK f1 " + strings.Join(fl, ",")}
+			}
+			diffs++
+			var (
+				changes []schema.Change
+				err     error
+				pan     any
+			)
+			func() {
+				defer func() { pan = recover() }()
+				changes, err = d.differ.SchemaDiff(fkSchema(d.d, p.From), fkSchema(d.d, p.To), schema.DiffNormalized())
+			}()
+			got := absmodel.Project(changes)
+			if got == nil {
+				got = []string{}
+			}
+			if err != nil || pan != nil || !reflect.DeepEqual(got, want) {
+				m := mm{Dialect: d.d.Name, Pair: p, Want: want, Got: got}
+				if err != nil {
+					m.Err = err.Error()
+				}
+				if pan != nil {
+					m.Err = fmt.Sprint("panic: ", pan)
+				}
+				if len(mism) < 300 {
+					mism = append(mism, m)
+				}
+			}
+		}
+	}
+	json.NewEncoder(os.Stdout).Encode(map[string]any{"pairs": n, "diffs": diffs, "mismatches": mism})
+}
+
 func main() {
+	if len(os.Args) > 2 && os.Args[2] == "fk" {
+		fkMode(os.Args[1])
+		return
+	}
 	skipMode := len(os.Args) > 2 && os.Args[2] == "skip"
 	f, err := os.Open(os.Args[1])
 	if err != nil {
@@ -291,5 +485,39 @@ func main() {
 			}
 		}
 	}
-	json.NewEncoder(os.Stdout).Encode(map[string]any{"pairs": n, "diffs": diffs, "type_pairs": ntypes, "mismatches": mism, "classes": classes, "samples": samples})
+	nattr := 0
+	if !skipMode {
+		// default and attribute matrices: one-column tables whose single column changes one attribute; the expectation is the flag
+		// of that attribute, or nothing when both spellings denote the same value (class)
+		for _, d := range ds {
+			for _, c := range attrCases(d.d) {
+				diffs++
+				nattr++
+				var (
+					changes []schema.Change
+					err     error
+					pan     any
+				)
+				func() {
+					defer func() { pan = recover() }()
+					changes, err = d.differ.SchemaDiff(c.from, c.to, schema.DiffNormalized())
+				}()
+				got := absmodel.Project(changes)
+				if got == nil {
+					got = []string{}
+				}
+				if err != nil || pan != nil || !reflect.DeepEqual(got, c.want) {
+					m := mismatch{Dialect: d.d.Name, Mode: "attrs", Want: c.want, Got: got, Types: c.label}
+					if err != nil {
+						m.Err = err.Error()
+					}
+					if pan != nil {
+						m.Err = fmt.Sprint("panic: ", pan)
+					}
+					mism = append(mism, m)
+				}
+			}
+		}
+	}
+	json.NewEncoder(os.Stdout).Encode(map[string]any{"pairs": n, "diffs": diffs, "type_pairs": ntypes, "attr_cases": nattr, "mismatches": mism, "classes": classes, "samples": samples})
 }
